@@ -15,7 +15,7 @@ import (
 // detector in both tiers: what serialises the exchanges of a client must exist before two callers need it.
 func TestC10FreshClone(t *testing.T) {
 	const name = "TestC10FreshClone"
-	rec := evid.New("C10", name, "2..6 caller goroutines released together on a Clone() of the dialled client that has not been used before, each issuing 1..2 undisturbed calls (Activate through Request, or Query / Discover Versions through Roundtrip) with unique identifiers; the correlation middleware optionally installed; built with the race detector in both tiers; "+
+	rec := evid.New("C10", name, "2..6 caller goroutines released together on a Clone() of the dialled client that has not been used before, (one case in two: the callers with an even index use the dialled client itself, so that two clients of the process are at work at once), each issuing 1..2 undisturbed calls (Activate through Request, or Query / Discover Versions through Roundtrip) with unique identifiers; the correlation middleware optionally installed; built with the race detector in both tiers; "+
 		"oracle: every call returns the response echoing its own identifier, and the race detector reports nothing in the library; non-trivial = every case (>= 2 callers making the clone's first calls); distinct by case").Attach(t)
 	if rp := evid.LoadReplay(name); rp != nil {
 		var c c10Case
@@ -31,6 +31,7 @@ func TestC10FreshClone(t *testing.T) {
 	}
 	rapid.Check(t, func(rt *rapid.T) {
 		c := c10Case{FreshClone: true, Correlation: rapid.SampledFrom([]string{"", "", "unique", "shared"}).Draw(rt, "correlation")}
+		c.BothClients = rapid.Bool().Draw(rt, "both-clients")
 		n := rapid.IntRange(2, 6).Draw(rt, "callers")
 		for ci := 0; ci < n; ci++ {
 			var calls []callPlan
